@@ -170,6 +170,13 @@ impl quote::ToTokens for ParamsGenerator<'_> {
             syn::token::Gt::default(),
         );
 
+        // Lifetime parameters have to be declared before type and const parameters
+        for param in self.params {
+            if matches!(param, syn::GenericParam::Lifetime(_)) {
+                punctuator.push(param);
+            }
+        }
+
         if let Some(impl_t) = &self.impl_t {
             punctuator.push_fn(|stream| {
                 push_tokens!(
@@ -201,7 +208,9 @@ impl quote::ToTokens for ParamsGenerator<'_> {
         }
 
         for param in self.params {
-            punctuator.push(param);
+            if !matches!(param, syn::GenericParam::Lifetime(_)) {
+                punctuator.push(param);
+            }
         }
     }
 }
